@@ -494,11 +494,11 @@ _CLASSES = {
 
 
 def _utf7_shards(tier):
-    """case split: length x class of the first character (x class of the second one for length 3);
-    the remaining characters range over all classes inside the shard"""
+    """case split: length x classes of all characters but the last, which ranges over all classes
+    inside the shard"""
     out = []
     for n in range(1, BOUNDS[tier]["u"] + 1):
-        fixed = 1 if n <= 2 else 2
+        fixed = n - 1
         prefixes = [""]
         for _ in range(fixed):
             prefixes = [p + c for p in prefixes for c in "PACLBS"]
